@@ -1,5 +1,5 @@
 (** C19 — lemmas about the abstract borrow-array machine of Array.v. *)
-From Coq Require Import ZArith List String Bool Lia ZifyBool.
+From Coq Require Import String ZArith List Bool Lia ZifyBool.
 From V.C19 Require Import Array.
 Import ListNotations.
 Open Scope Z_scope.
@@ -100,7 +100,7 @@ Section Cell.
     match nth_error cells (Z.to_nat i) with
     | Some (Some v) => full (Z.to_nat i) v
     | Some None => empty (Z.to_nat i)
-    | None => Stuck "cell"
+    | None => Stuck "cell"%string
     end.
   Proof.
     intros. unfold with_cell. subst n. rewrite len_ok_refl. rewrite uidx_in by assumption. reflexivity.
